@@ -132,14 +132,37 @@ ShapeAttempt ==
        \E kind \in Kinds, member \in Actor : \E acc \in ArgsOf(kind) :
           Publish(OkIds, cur, ShapeTarget, kind, member, acc)
 
-ShapeStartDelivery == phase = "s5" /\ phase' = "dlv" /\ UNCHANGED vars
+(* C31 tails of the family: two CONCURRENT promotions of the re-added b, to any levels, by a and by c,  *)
+(* either both depending on both branches ("join2": the stale access counter of b's old membership  *)
+(* must not leak into the merged state they start from) or both depending on the re-add only        *)
+(* ("fork3": three heads - the old branch and the two promotions - merged in any order by queries). *)
+CONSTANT ShapeTail         \* "none" | "join2" | "fork3"
+
+TailView(n) == IF ShapeTail = "join2" THEN 1..n ELSE anc[n] \cup {n}     \* n = id of the re-add
+
+ShapeTail1 ==
+    /\ phase = "s4" /\ ShapeTail # "none" /\ phase' = "t2"
+    /\ LET D == TailView(Len(ops)) cur == StateOfView(D) IN
+       \E acc \in AccessArgs :
+          /\ VerdictIn(cur, Creator, "promote", ShapeTarget, acc)
+          /\ Publish(D, cur, Creator, "promote", ShapeTarget, acc)
+
+ShapeTail2 ==
+    /\ phase = "t2" /\ phase' = "t3"
+    /\ LET D == TailView(Len(ops) - 1) cur == StateOfView(D) IN
+       \E acc \in AccessArgs :
+          /\ VerdictIn(cur, ShapeOther, "promote", ShapeTarget, acc)
+          /\ Publish(D, cur, ShapeOther, "promote", ShapeTarget, acc)
+
+ShapeStartDelivery == phase \in {"s5", "t3"} /\ Replica # {} /\ phase' = "dlv" /\ UNCHANGED vars
 
 ShapeTerminated ==
     /\ \/ phase = "dlv" /\ \A r \in Replica : delivered[r] \cup rejected[r] = Ids
-       \/ phase = "s4" /\ ~ShapeAttempts
+       \/ phase = "s4" /\ ~ShapeAttempts /\ ShapeTail = "none"
+       \/ phase = "t3" /\ Replica = {}
     /\ UNCHANGED mcvars
 
-ShapeNext == ShapeModify \/ ShapeRemove \/ ShapeReadd \/ ShapeAttempt \/ ShapeStartDelivery \/ DeliverAccepted \/ DeliverRejected \/ ShapeTerminated
+ShapeNext == ShapeTail1 \/ ShapeTail2 \/ ShapeModify \/ ShapeRemove \/ ShapeReadd \/ ShapeAttempt \/ ShapeStartDelivery \/ DeliverAccepted \/ DeliverRejected \/ ShapeTerminated
 ShapeSpec == ShapeInit /\ [][ShapeNext]_mcvars
 
 \* vacuity: the family contains a history in which b's access was changed concurrently with its re-add
